@@ -566,6 +566,15 @@ def model_constructors() -> set[str]:
     return set(re.findall(r"\|\s*([A-Za-z0-9_]+)", mm.group(1)))
 
 
+def default_shape() -> str:
+    here = os.path.dirname(os.path.dirname(os.path.dirname(os.path.abspath(__file__))))
+    src = open(os.path.join(here, "coq", "gen_default", "Routes_gen.v")).read()
+    mm = re.search(r"Definition gen_qv : qv_shape := ([^.]+)\.", src)
+    if not mm:
+        raise TranslateError("default shape not found")
+    return mm.group(1).strip()
+
+
 def emit(routes: list[dict], qv: str) -> str:
     lines = ["(* GENERATED by harness/translate/routes.py from pynmon/app.py, pynmon/views/*.py, pynmon/util/**.",
              "   Do not edit: rewritten on every check run. *)",
@@ -604,10 +613,20 @@ def analyse(repo: str) -> dict:
         r["reach"] = [a for a in order if a in apis]
         r["functions"] = len(fns)
         r["qv"] = False
-    qv, qinfo = queue_view_shape(an.mods, an)
+    try:
+        qv, qinfo = queue_view_shape(an.mods, an)
+    except TranslateError as ex:
+        # only the shape is unrecognised: keep the regenerated route table, take the committed default shape
+        # (the check then relies on the before/after read-out and on model-vs-implementation of every request)
+        qv = default_shape()
+        qinfo = {"shape": "drain" if qv.startswith("QVDrain") else "read", "degraded": str(ex)}
+    qmuts = {"ABrokerRetrieve", "ABrokerRoute", "ABrokerRouteMany"}
     for r in routes:
-        if r["module"] == "pynmon.views.broker" and r["func"] == "queue_view" and qinfo["shape"] == "drain":
+        if r["module"] == "pynmon.views.broker" and r["func"] == "queue_view" and qinfo["shape"] == "drain" \
+                and (qmuts & set(r["reach"]) or not qinfo.get("degraded")):
             r["qv"] = True
+    if qinfo.get("degraded") and qinfo["shape"] == "drain" and not any(r["qv"] for r in routes):
+        raise TranslateError("queue_view shape unrecognised and no drain route left: " + qinfo["degraded"])
     return {"routes": routes, "qv": qv, "qv_info": qinfo, "unknown": an.unknown}
 
 
@@ -618,6 +637,8 @@ def translate(repo: str) -> tuple[str, dict]:
             "route_table": [[r["method"], r["path"], r["module"], r["func"]] for r in a["routes"]],
             "queue_view_shape": a["qv"], "queue_view_info": a["qv_info"],
             "unknown_calls": a["unknown"],
+            "suspect_get_paths": sorted(r["path"] for r in gets if not r["qv"] and
+                                        any(x in set(MUTATORS.values()) | {"AUnknown"} for x in r["reach"])),
             "api_methods_reached_by_get": sorted({x for r in gets for x in r["reach"]})}
     return emit(a["routes"], a["qv"]), info
 
